@@ -44,20 +44,37 @@ in four places the crate checks or exposes less than Table 2-21 defines, and the
 * **Boolean-encoded enums** (`data_alignment_indicator`, `copyright`, `original_or_copy`):
   `polarity_pinned` states which bit value the model's `true` stands for; that `true` is mapped to
   the right Rust variant is established by the differential harness only.
+* **PES extension** (section "READING: the PES extension…" below): the crate's `PesExtension` is documented
+  "TODO: not yet implemented" and is an opaque slice: `pes_extension()` returns ALL bytes between
+  the end of the flag-implied fixed-size fields and the end of the header.  Neither the extension's
+  own flag byte nor its fields are looked at, so "flag-implied field sizes" in this property means
+  the six fields up to previous_PES_packet_CRC only: a header with PES_extension_flag = 1 and zero
+  bytes of extension is accepted (`ext_flag_zero_bytes_accepted`), and the header's stuffing bytes
+  are part of the extension range (`extension_absorbs_stuffing`).
 Also: error payloads (`NotEnoughData { requested, available }`) are not modelled, and
 `pes_extension()` is only described as a byte range.
-Not tied to regenerated constants (none exists in `Ts/Gen/Consts.lean`): the field sizes 1
-(`DSM_TRICK_MODE_SIZE`), 1 (`ADDITIONAL_COPY_INFO_SIZE`), 2 (`PREVIOUS_PES_PACKET_CRC_SIZE`).
+Ties to regenerated constants: the named sizes below (`tie_*`); the field sizes 1
+(`DSM_TRICK_MODE_SIZE`), 1 (`ADDITIONAL_COPY_INFO_SIZE`), 2 (`PREVIOUS_PES_PACKET_CRC_SIZE`), the
+`ES_rate` bound and the `×50` factor are tied in `Ts/Props/Ties.lean` (`tie_trick_mode_size`,
+`tie_copy_info_size`, `tie_prev_crc_size`, `tie_es_rate_assert`, `tie_bytes_per_second`).
 -/
 namespace Ts.Props.C14
 open Ts Ts.Spec Ts.Spec.PesSpec Ts.Lemmas.C14 Ts.Lemmas.RevC Ts.Spec.TimeSpec
 
-/-! ### ties to the constants regenerated from `/repo/src/pes.rs` -/
+/-! ### ties to the constants regenerated from `/repo/src/pes.rs`
+
+Each of the first five names a constant of the MODEL (`Pes.HDR_FIXED`, …) that the model's
+definitions use by name.  The equations of the model with the regenerated constants in place are
+`Ts.Props.Ties.tie_pes_header_size`, `tie_pes_offset_chain`, `tie_es_rate_assert`. -/
 theorem tie_fixed_header : Ts.Gen.pesFixedHeaderSize = 6 ∧ Pes.HDR_FIXED = 6 := by decide
 theorem tie_parsed_fixed : Ts.Gen.pesParsedFixed = 3 ∧ Pes.FIXED = 3 := by decide
 theorem tie_timestamp_size : Ts.Gen.pesTimestampSize = 5 ∧ Pes.TIMESTAMP_SIZE = 5 := by decide
 theorem tie_escr_size : Ts.Gen.pesEscrSize = 6 ∧ Pes.ESCR_SIZE = 6 := by decide
 theorem tie_es_rate_size : Ts.Gen.pesEsRateSize = 3 ∧ Pes.ES_RATE_SIZE = 3 := by decide
+/-- PIN ONLY (second review): the first conjunct fixes the regenerated number, the second is a
+closed arithmetic fact; neither mentions `Pes.esRate`.  The tie that does is
+`Ts.Props.Ties.tie_es_rate_assert` (the model's `assertR (v < 1 <<< 22)` restated with
+`Gen.esRateBound`); `esRate_lt` below bounds the SPEC's value by the same constant. -/
 theorem tie_es_rate_bound : Ts.Gen.esRateBound = 2 ^ 22 ∧ (1 <<< 22 : Nat) = 2 ^ 22 := by decide
 
 /-! ### the 6-byte packet header -/
@@ -171,6 +188,82 @@ theorem pesExtension_panics_unaccepted :
 theorem payloadOffset_panics_unaccepted :
     Pes.payloadOffset [0x80, 0x00, 0x05] = .panic "range start index out of range" ∧
     Pes.parsedFromBytes [0x80, 0x00, 0x05] = .ok none := ⟨rfl, rfl⟩
+
+/-! ### READING: the PES extension is an opaque "rest of the header" slice -/
+
+/-- **PES_extension_flag = 1 with zero extension bytes is accepted.**  ISO/IEC 13818-1 Table 2-21:
+a set PES_extension_flag is followed by at least one byte (PES_private_data_flag,
+pack_header_field_flag, program_packet_sequence_counter_flag, P-STD_buffer_flag, 3 reserved bits,
+PES_extension_flag_2).  The crate does not count it among the flag-implied sizes: the reviewer's
+probe `00 00 01 e0 00 00 | 80 01 00 | 01` (PES_extension_flag = 1, PES_header_data_length = 0, one
+payload byte) is accepted by `PesHeader::contents`, and `pes_extension()` answers `Ok` with the
+EMPTY range `(3, 0)`.  Model, code and the specification `parse` agree; the crate's `PesExtension`
+is "TODO: not yet implemented" (`pes.rs:476`) and exposes nothing, so this is recorded as a
+reading, not as a defect. -/
+theorem ext_flag_zero_bytes_accepted :
+    parsedAccepted [0x80, 0x01, 0x00] ∧
+    (flagsOf [0x80, 0x01, 0x00]).ext = true ∧
+    (parse [0x80, 0x01, 0x00]).extension = .present (3, 0) ∧
+    Pes.parsedFromBytes [0x80, 0x01, 0x00] = .ok (some [0x80, 0x01, 0x00]) ∧
+    Pes.pesExtension [0x80, 0x01, 0x00] = .ok (.ok (3, 0)) ∧
+    -- the whole probe, through `PesHeader::from_bytes` / `contents`
+    Pes.headerFromBytes [0x00, 0x00, 0x01, 0xE0, 0x00, 0x00, 0x80, 0x01, 0x00, 0x01]
+      = .ok (some [0x00, 0x00, 0x01, 0xE0, 0x00, 0x00, 0x80, 0x01, 0x00, 0x01]) ∧
+    (∃ c, Pes.contents [0x00, 0x00, 0x01, 0xE0, 0x00, 0x00, 0x80, 0x01, 0x00, 0x01] = .ok (.parsed (some c))
+      ∧ c = [0x80, 0x01, 0x00, 0x01] ∧ Pes.pesExtension c = .ok (.ok (3, 0))
+      ∧ Pes.payloadOffset c = .ok 3) :=
+  ⟨by decide +kernel, by decide +kernel, by decide +kernel, rfl, rfl, rfl, ⟨_, rfl, rfl, rfl, rfl⟩⟩
+
+/-- **The extension range runs to the end of the header, stuffing included.**  For every receiver
+`from_bytes` accepts (hypothesis `h`) whose PES_extension_flag is set (hypothesis `hext`):
+`pes_extension()` is `Ok` with the range that starts where the six flag-implied fixed-size fields
+end (`fixedFieldsEnd`, the code's `pes_crc_end`) and has length `3 + PES_header_data_length −
+fixedFieldsEnd`, so it ends exactly where the payload starts.  Consequently, however the bytes
+between `fixedFieldsEnd` and the end of the header are split into `n` bytes of real extension
+fields and `k` stuffing bytes (`hsplit`), the range has length `n + k`: the `k` stuffing bytes
+(0xFF, Table 2-21 `stuffing_byte`) are reported as part of the extension. -/
+theorem extension_absorbs_stuffing (c : Bytes) (h : Pes.parsedFromBytes c = .ok (some c))
+    (hext : (flagsOf c).ext = true) :
+    Pes.pesExtension c =
+      .ok (.ok (fixedFieldsEnd (flagsOf c), 3 + hdl c - fixedFieldsEnd (flagsOf c))) ∧
+    fixedFieldsEnd (flagsOf c) + (3 + hdl c - fixedFieldsEnd (flagsOf c)) = 3 + hdl c ∧
+    Pes.payloadOffset c = .ok (3 + hdl c) ∧
+    (∀ n k, 3 + hdl c = fixedFieldsEnd (flagsOf c) + n + k →
+      Pes.pesExtension c = .ok (.ok (fixedFieldsEnd (flagsOf c), n + k))) := by
+  obtain ⟨hacc, hx, hp, hpo, _⟩ := pes_fields_exact_accepted c h
+  have hf : fixedFieldsEnd (flagsOf c) ≤ 3 + hdl c := hacc.2.2.2
+  rw [hext, if_pos rfl] at hp
+  have e : Pes.pesExtension c =
+      .ok (.ok (fixedFieldsEnd (flagsOf c), 3 + hdl c - fixedFieldsEnd (flagsOf c))) := by
+    rw [hx, hp]; rfl
+  refine ⟨e, by omega, hpo, ?_⟩
+  intro n k hs
+  rw [e]
+  have : 3 + hdl c - fixedFieldsEnd (flagsOf c) = n + k := by omega
+  rw [this]
+
+/-- instance of `extension_absorbs_stuffing`: PES_extension_flag set, PES_header_data_length 3, a
+one-byte extension (`0x0E`: the five flags of the extension's first byte clear, reserved bits set) followed by TWO
+stuffing bytes `0xFF 0xFF` and one payload byte.  The hypotheses hold, `n = 1`, `k = 2`, and the
+reported extension range `(3, 3)` covers the extension byte and both stuffing bytes. -/
+theorem extension_absorbs_stuffing_instance :
+    Pes.parsedFromBytes [0x80, 0x01, 0x03, 0x0E, 0xFF, 0xFF, 0x42]
+      = .ok (some [0x80, 0x01, 0x03, 0x0E, 0xFF, 0xFF, 0x42]) ∧
+    (flagsOf [0x80, 0x01, 0x03, 0x0E, 0xFF, 0xFF, 0x42]).ext = true ∧
+    3 + hdl [0x80, 0x01, 0x03, 0x0E, 0xFF, 0xFF, 0x42]
+      = fixedFieldsEnd (flagsOf [0x80, 0x01, 0x03, 0x0E, 0xFF, 0xFF, 0x42]) + 1 + 2 ∧
+    Pes.pesExtension [0x80, 0x01, 0x03, 0x0E, 0xFF, 0xFF, 0x42] = .ok (.ok (3, 3)) ∧
+    (([0x80, 0x01, 0x03, 0x0E, 0xFF, 0xFF, 0x42] : Bytes).drop 3).take 3 = [0x0E, 0xFF, 0xFF] :=
+  ⟨rfl, by decide +kernel, by decide +kernel, rfl, rfl⟩
+
+/-- the same with flagged fields in front: PTS (5 bytes) + previous_PES_packet_CRC (2 bytes) +
+extension flag, PES_header_data_length 10 = 5 + 2 + 1 extension byte + 2 stuffing bytes; the
+extension range `(10, 3)` starts at `pes_crc_end` = 10 and includes the stuffing -/
+example : Pes.parsedFromBytes [0x80, 0x83, 0x0A, 0x21, 0x00, 0x01, 0x00, 0x01, 0x12, 0x34, 0x0E, 0xFF, 0xFF, 0x42]
+      = .ok (some [0x80, 0x83, 0x0A, 0x21, 0x00, 0x01, 0x00, 0x01, 0x12, 0x34, 0x0E, 0xFF, 0xFF, 0x42]) ∧
+    fixedFieldsEnd (flagsOf [0x80, 0x83, 0x0A, 0x21, 0x00, 0x01, 0x00, 0x01, 0x12, 0x34, 0x0E, 0xFF, 0xFF, 0x42]) = 10 ∧
+    Pes.pesExtension [0x80, 0x83, 0x0A, 0x21, 0x00, 0x01, 0x00, 0x01, 0x12, 0x34, 0x0E, 0xFF, 0xFF, 0x42]
+      = .ok (.ok (10, 3)) := ⟨rfl, by decide +kernel, rfl⟩
 
 /-- panic freedom, extracted: on every receiver of at least three bytes `escr` never trips
 `ClockRef::from_parts`' assertions, `es_rate` never trips `assert!(es_rate < 1 << 22)`, and
